@@ -1,5 +1,6 @@
 import LaunchpadModel.Model.Sg1
 import LaunchpadModel.Model.Proto
+import LaunchpadModel.Model.Protobuf
 /-!
 Driver for C06. Lines (one output line per input line):
 
@@ -12,12 +13,38 @@ Driver for C06. Lines (one output line per input line):
 * `createfee fk=<0..3> fd=<0|1> md=<0|1> fee=<n> pay=<n> factory=<a>` — integration: CreateMinter on a real factory (creation fee in denom fd, minimum price in denom md)
 * `wlfee kind=<0..3> ml=<n> nml=<n> wl=<a>` — integration: whitelist creation fee and IncreaseMemberLimit fee (exact payments)
 * `shufflefee kind=<0..5> fee=<n> pay=<n> minter=<a>` — integration: Shuffle paying `pay` on a factory whose shuffle fee is `fee`
+* `pb via=<fb|checked> sender=<hex|-> fee=<n>` — the Stargate message of `fair_burn(sender, fee, None)` (via=fb) or of
+  `checked_fair_burn` with `env.contract.address = sender` and an exact payment (via=checked): `ok url=<type_url> hex=<bytes> dec=<s>:<d>:<a>`
+  (the model's `Pb.encodeFundFairburnPool` bytes, and what the model's decoder reads back from them), `ok none` when no Stargate message
+* `pbenc sender=<hex|-> denom=<hex|-> amount=<hex|->` — encoder level (any denom / amount string): `ok hex=<bytes|-> dec=…`
 
 Output: `ok <msgs>` or `err`.
 -/
 open LP LP.Proto
 
 def coinsOf (l : List (Nat × Nat)) : List Coin := l.map fun (d, a) => ⟨d, a⟩
+
+def hexDigit (n : Nat) : Char := if n < 10 then Char.ofNat (48 + n) else Char.ofNat (87 + n)
+def toHex (bs : List Nat) : String :=
+  if bs.isEmpty then "-" else String.ofList (bs.flatMap fun b => [hexDigit (b / 16), hexDigit (b % 16)])
+def hexVal (c : Char) : Option Nat :=
+  let n := c.toNat
+  if 48 ≤ n && n ≤ 57 then some (n - 48) else if 97 ≤ n && n ≤ 102 then some (n - 87) else none
+def fromHexChars : List Char → Option (List Nat)
+  | [] => some []
+  | [_] => none
+  | h :: l :: rest => do let a ← hexVal h; let b ← hexVal l; let r ← fromHexChars rest; pure ((a * 16 + b) :: r)
+def fromHex (s : String) : Option (List Nat) := if s == "-" then some [] else fromHexChars s.toList
+def hexKv (ws : List String) (key : String) : Option (List Nat) := (kv ws key).bind fromHex
+
+/-- what the model's decoder reads back: `<sender>:<denom>:<amount>` per coin, `<sender>:none` without a coin, `undecodable` -/
+def renderDecoded (bs : List Nat) : String :=
+  match Pb.decodeFundFairburnPool bs with
+  | none => "undecodable"
+  | some (s, []) => s!"{toHex s}:none"
+  | some (s, cs) => ",".intercalate (cs.map fun c => s!"{toHex s}:{toHex c.1}:{toHex c.2}")
+
+def pbTypeUrl : String := "/publicawesome.stargaze.alloc.v1beta1.MsgFundFairburnPool"
 
 def c06Line (line : String) : String :=
   let ws := words line
@@ -74,6 +101,24 @@ def c06Line (line : String) : String :=
       let f1 := Sg1.wlCreationFee per ml; let f2 := Sg1.wlUpgradeFee per ml nml
       let m1 := Sg1.wlFeeMsgs self f1; let m2 := Sg1.wlFeeMsgs self f2
       pure s!"ok fee1={f1} burned1={Sg1.burnedBy m1} pool1={Sg1.sentTo FAIRBURN_POOL m1} fee2={f2} burned2={Sg1.burnedBy m2} pool2={Sg1.sentTo FAIRBURN_POOL m2} held=0"
+    | some "pb" => do
+      -- the Stargate message the REAL `fair_burn` / `checked_fair_burn` builds for the pool, byte for byte
+      let via ← kv ws "via"; let sb ← hexKv ws "sender"; let f ← natKv ws "fee"
+      let msgs : Option (List Msg) :=
+        if via == "fb" then some (Sg1.fairBurn 0 f none)
+        else match Sg1.checkedFairBurn (if f = 0 then [] else [⟨NATIVE, f⟩]) 0 f none with
+          | .ok ms => some ms
+          | .error _ => none
+      match msgs with
+      | none => pure "err"
+      | some ms =>
+        match Pb.firstStargate (fun _ => sb) (fun d => if d = NATIVE then Pb.ustars else []) ms with
+        | none => pure "ok none"
+        | some bs => pure s!"ok url={pbTypeUrl} hex={toHex bs} dec={renderDecoded bs}"
+    | some "pbenc" => do
+      let sb ← hexKv ws "sender"; let d ← hexKv ws "denom"; let a ← hexKv ws "amount"
+      let bs := Pb.encodeFundFairburnPool sb [(d, a)]
+      pure s!"ok hex={toHex bs} dec={renderDecoded bs}"
     | _ => none
   r.getD "bad-op"
 
